@@ -159,3 +159,82 @@ Proof.
   - intros H; discriminate.
   - intros H; discriminate.
 Qed.
+
+(* ---------- what the other two answers do to the acknowledged tick ---------- *)
+Lemma remove_last_head {A} (x y : A) l : remove_last (x :: y :: l) = x :: remove_last (y :: l).
+Proof. reflexivity. Qed.
+
+Lemma add_delta_ok st crc dt tick d st' X ws : add_delta st crc dt tick d = (st', (Ok X, ws)) ->
+  st_ack st' = Some tick /\ exists rest, st_snaps st' = (tick, X) :: rest.
+Proof.
+  unfold add_delta. destruct (tick <=? front_tick st); [intros H; discriminate|].
+  assert (Main : forall snaps1 free2 b ws0,
+    match free2 with
+    | [] => (st, (Panic site_free_unwrap, ws0))
+    | _ :: free_rest =>
+      match snap_read_with_delta b d with
+      | (Ok X0, ws1) =>
+        let wsa := ws0 ++ map SWUnpack ws1 in
+        if match crc with Some c => negb (c =? Snap.crc (sn_raw X0)) | None => false end then
+          ({| st_snaps := snaps1; st_free := FClean X0 :: free_rest; st_ack := None; st_dtick := st_dtick st |},
+           (Err SInvalidCrc, wsa))
+        else
+          let snaps2 := (tick, X0) :: snaps1 in
+          if MAX_STORED_SNAPSHOT <? zlen snaps2 then
+            match last_opt snaps2 with
+            | Some (_, sl) =>
+              ({| st_snaps := remove_last snaps2; st_free := FClean sl :: free_rest;
+                  st_ack := Some tick; st_dtick := st_dtick st |}, (Ok X0, wsa))
+            | None => (st, (Panic site_snaps_unwrap, wsa))
+            end
+          else
+            ({| st_snaps := snaps2; st_free := free_rest; st_ack := Some tick; st_dtick := st_dtick st |}, (Ok X0, wsa))
+      | (Err e, ws1) =>
+        ({| st_snaps := snaps1; st_free := FDirty :: free_rest; st_ack := st_ack st; st_dtick := st_dtick st |},
+         (Err (SUnpack e), ws0 ++ map SWUnpack ws1))
+      | (Panic s, ws1) => (st, (Panic s, ws0 ++ map SWUnpack ws1))
+      | (OutOfFuel, ws1) => (st, (OutOfFuel, ws0 ++ map SWUnpack ws1))
+      end
+    end = (st', (Ok X, ws)) ->
+    st_ack st' = Some tick /\ exists rest, st_snaps st' = (tick, X) :: rest).
+  { intros snaps1 free2 b ws0. destruct free2 as [|f0 fr]; [intros H; discriminate|].
+    destruct (snap_read_with_delta b d) as [[X0|e0|s0|] ws1]; try (intros H; discriminate).
+    cbv zeta. destruct (match crc with Some c => negb (c =? Snap.crc (sn_raw X0)) | None => false end); [intros H; discriminate|].
+    destruct (MAX_STORED_SNAPSHOT <? zlen ((tick, X0) :: snaps1)) eqn:Ecap.
+    - destruct (last_opt ((tick, X0) :: snaps1)) as [[tl sl]|]; [|intros H; discriminate].
+      intros [= <- <- _]. cbn [st_ack st_snaps]. split; [reflexivity|].
+      destruct snaps1 as [|y l].
+      + exfalso. apply Z.ltb_lt in Ecap. unfold zlen, MAX_STORED_SNAPSHOT, GEN_MAX_STORED_SNAPSHOT in Ecap. cbn [length] in Ecap. lia.
+      + eexists. reflexivity.
+    - intros [= <- <- _]. cbn [st_ack st_snaps]. split; [reflexivity|]. eexists. reflexivity. }
+  destruct (0 <=? dt).
+  - destruct (split_old dt (st_snaps st)) as [kept old].
+    destruct (match last_opt kept with Some (t, s) => if t =? dt then Some s else None | None => None end) as [b|];
+      [|intros H; discriminate].
+    apply Main.
+  - apply Main.
+Qed.
+
+(* Ok(None): nothing but the DeltaReceiver changes.  Ok(Some(snap)): the acknowledged tick is the
+   tick under which `snap` is now the newest stored snapshot. *)
+Theorem feed_ok_ack sz m msg m' o ws : manager_feed sz m msg = (m', (Ok o, ws)) ->
+  match o with
+  | None => m_store m' = m_store m
+  | Some X => exists t rest, manager_ack m' = Some t /\ st_snaps (m_store m') = (t, X) :: rest
+  end.
+Proof.
+  unfold manager_feed, manager_ack.
+  destruct (Receiver.recv_step (m_recv m) msg) as [r' [res rws]].
+  destruct res as [[rd|]|e0|s0|]; try (intros H; discriminate).
+  - destruct (mgr_add_delta sz (m_store m) rd) as [st' [r2 ws2]] eqn:E.
+    destruct r2 as [X|e2|s2|]; intros H; try discriminate. injection H as <- <- _. cbn [m_store].
+    unfold mgr_add_delta in E. destruct (Receiver.rd_data_and_crc rd) as [[data crc]|].
+    + destruct (delta_read_bytes sz data) as [[d|e1|s1|] wsd]; try discriminate.
+      destruct (add_delta (m_store m) (Some crc) (Receiver.rd_delta_tick rd) (Receiver.rd_tick rd) d) as [st1 [r ws1]] eqn:Ea.
+      injection E as <- Hr _. destruct r as [X1|e1|s1|]; cbn [lift_st] in Hr; try discriminate. injection Hr as ->.
+      destruct (add_delta_ok _ _ _ _ _ _ _ _ Ea) as [H1 [rest H2]]. eauto.
+    + destruct (add_delta (m_store m) None (Receiver.rd_delta_tick rd) (Receiver.rd_tick rd) delta_empty) as [st1 [r ws1]] eqn:Ea.
+      injection E as <- Hr _. destruct r as [X1|e1|s1|]; cbn [lift_st] in Hr; try discriminate. injection Hr as ->.
+      destruct (add_delta_ok _ _ _ _ _ _ _ _ Ea) as [H1 [rest H2]]. eauto.
+  - intros [= <- <- _]. reflexivity.
+Qed.
